@@ -400,12 +400,23 @@ private def sysStopOf (r : Except Stop (State × List Out)) : Option Sys.Stop :=
   | .error (.sys e) => some e
   | _ => none
 
-/-- **FINDING (candidate, model level; see notes/sysw.md)** — the theorems exclude a stop in the JOB layer; the core's
-own panics are not excluded, and the composition reaches one with ALL side conditions true: a multi-node task whose
-root is a worker with less remaining life time (50 s) than the request's `min_time` (100 s). The worker hard-rejects
-it (`try_start_task`: `remaining_time() < min_time` → `RejectRequest`), and `task_reject` has `unreachable!()` for
-`RunningMultiNode`. (The solver's placement filter tests the worker's life time for single-node variants only; for a
-multi-node variant it tests that the worker's GROUP is capable.) -/
+/-- the core's ready queues, and per core worker record: id, whether it is back to an EMPTY single-node assignment
+with all resources free, and its blocked (request, variant) pairs -/
+private def sQueues (r : Except Stop (State × List Out)) : Option (List (List (Int × List TaskId))) :=
+  r.toOption.map fun x => x.1.sys.core.queues.map (·.ready)
+private def sCoreWorkers (r : Except Stop (State × List Out)) : Option (List (Nat × Bool × List (Nat × Nat))) :=
+  r.toOption.map fun x => x.1.sys.core.workers.map fun wk =>
+    (wk.id, (match wk.assign with | .sn [] free [] => decide (free = wk.total) | _ => false), wk.blocked)
+
+/-- **REGRESSION of finding F32** (`task_reject` ended in `unreachable!()` for `RunningMultiNode`; before the fix this
+run — all side conditions true — stopped with `Stop.sys (.core "task_reject.unreachable")`): a multi-node task whose
+root is a worker with less remaining life time (50 s) than the request's `min_time` (100 s). The worker hard-rejects it
+(`try_start_task`: `remaining_time() < min_time` → `RejectRequest`). With the fix `task_reject` treats the refusal of a
+placed, NOT started multi-node task by its root as a regular transition: the reserved workers are reset
+(`reset_mn_task_workers`), the task goes back to `Waiting 0` — same instance id, no client callback — and into the
+ready queue, and the root stays blocked for (request 0, variant 0). (How the placement arises although the solver now
+tests the root's life time: the core's record of worker 1 has no termination time — clock skew / a worker that
+announces none — while the worker itself has 50 s left.) -/
 private def opsMnReject : List Op := [
   .srv (.newRq [{ nNodes := 1, entries := [], minTime := 100 }]), .addWorker (wkr 1) [[100]] (some 50),
   .srv (.submit none none (.array [⟨0, 1, 1⟩] none) [ntk 0]),
@@ -414,7 +425,30 @@ private def opsMnReject : List Op := [
   .deliverW2S 1 []]
 
 example : RunOk {} opsMnReject := by decide
-example : sysStopOf (run {} opsMnReject) = some (.core "task_reject.unreachable") := by decide
+/-- before the reject is delivered the task is `RunningMultiNode [1]`, worker 1 is reserved for it (not free) and the
+`RejectRequest` is in its queue to the server -/
+example : sCore (run {} (opsMnReject.take 5)) = some [((1, 0), .runningMN [1])] ∧
+    sWorkers (run {} (opsMnReject.take 5)) = some [(1, 0, 1, [])] := by decide
+example : sCoreWorkers (run {} (opsMnReject.take 5)) = some [(1, false, [])] := by decide
+/-- the run does NOT stop; afterwards the task is `Waiting 0` in the core and in the ready queue of its request, the
+job layer still has it `waiting` (no callback was made), worker 1 is free again (empty single-node assignment, all
+resources free), blocked for (request 0, variant 0), and nothing is in flight -/
+example : sysStopOf (run {} opsMnReject) = none ∧ (run {} opsMnReject).toOption.isSome = true ∧
+    sCore (run {} opsMnReject) = some [((1, 0), .waiting 0)] ∧
+    sJobs (run {} opsMnReject) = some [[(0, .waiting)]] ∧
+    sWorkers (run {} opsMnReject) = some [(1, 0, 0, [])] := by decide
+example : sQueues (run {} opsMnReject) = some [[(0, [(1, 0)])]] := by decide
+example : sCoreWorkers (run {} opsMnReject) = some [(1, true, [(0, 0)])] := by decide
+/-- … and the next round may place it again (here on a second worker that has the time): the composed run goes on -/
+example : RunOk {} (opsMnReject ++ [.addWorker (wkr 2) [[100]] none,
+      .srv (.schedule { now := 20, mn := [{ rq := 0, sets := [[2]] }] }), .deliverS2W 2 [{ rq := 0, alloc := some 7 }],
+      .deliverW2S 2 []]) ∧
+    sCore (run {} (opsMnReject ++ [.addWorker (wkr 2) [[100]] none,
+      .srv (.schedule { now := 20, mn := [{ rq := 0, sets := [[2]] }] }), .deliverS2W 2 [{ rq := 0, alloc := some 7 }],
+      .deliverW2S 2 []])) = some [((1, 0), .runningMN [2])] ∧
+    sJobs (run {} (opsMnReject ++ [.addWorker (wkr 2) [[100]] none,
+      .srv (.schedule { now := 20, mn := [{ rq := 0, sets := [[2]] }] }), .deliverS2W 2 [{ rq := 0, alloc := some 7 }],
+      .deliverW2S 2 []])) = some [[(0, .running)]] := by decide
 
 /-- the side condition "no task id is submitted twice" is checked: a second submit of the same id violates `OpOk` -/
 example : ¬ RunOk {} (opsLife ++ [.srv (.submit (some 1) none (.array [⟨0, 1, 1⟩] none) [ntk 0])]) := by decide
